@@ -270,6 +270,11 @@ func (hp *HPACK) nextField(hf *HeaderField, blockStart bool, fieldsProcessed int
 		err error
 	)
 
+	// Only a never-indexed literal makes a field sensitive, and callers decode
+	// a whole header block into the same HeaderField: what the previous field
+	// left in it says nothing about this one.
+	hf.sensible = false
+
 loop:
 	if len(b) == 0 {
 		return b, nil
